@@ -160,6 +160,26 @@ def r_layout(args, pos=1):
         'tokens_to_string loses text for lexeme %s in layout %s' % (m.LEXEMES[args['k']], args)
 
 
+def r_pair(args):
+    """through the public API: CREATE VIEW with the two lexemes in its inner query; stored text vs the written text"""
+    import importlib
+    from mindsdb_sql import parse_sql
+    m = importlib.import_module('harness.ch_C16')
+    ka, kb = int(args['ka']), int(args['kb'])
+    a, b = m.PAIR_LEXEMES[ka], m.PAIR_LEXEMES[kb]
+    ok = m.pair_leaf(ka, kb, int(args['gap']), bool(args['nl']))
+    info = {'lexemes': [a, b], 'unit_ok': ok}
+    inner = 'select %s, %s from t' % (a, b)
+    try:
+        stored = parse_sql('CREATE VIEW v (%s)' % inner, 'mindsdb').query_str
+        info.update(inner=inner, stored=stored)
+        bad = strip_ws(stored) != strip_ws(inner)
+    except Exception as e:  # noqa
+        info['public_api'] = repr(e)[:120]
+        bad = not ok
+    return (bad or not ok), info, 'embedded-pair:%s:%s' % (a, b), 'inner query %r is stored as %r' % (inner, info.get('stored'))
+
+
 def specs():
     sp = [dict(fn=k, twin=('reach' if k == 'quote_string' else None), replay=mk_replay(k))
           for k in ('quote_string', 'dquote_string', 'variable', 'system_variable', 'identifier', 'number')]
@@ -168,6 +188,7 @@ def specs():
     sp.append(dict(fn='layout', twin='layout_reach', replay=r_layout))
     sp.append(dict(fn='layout_first', twin='layout_reach', replay=lambda a: r_layout(a, 0)))
     sp.append(dict(fn='layout_last', twin='layout_reach', replay=lambda a: r_layout(a, 2)))
+    sp.append(dict(fn='pair', twin='pair_reach', replay=r_pair))
     return sp
 
 
